@@ -82,6 +82,7 @@ Definition w_multi := [109;117;108;116;105].
 Definition w_fail := [102;97;105;108].
 Definition w_empty := [101;109;112;116;121].
 Definition w_null := [110;117;108;108].
+Definition w_nested := [110;101;115;116;101;100].
 Definition w_dtor := [100;116;111;114].
 Definition w_chook := [99;104;111;111;107].
 Definition w_hook := [104;111;111;107].
@@ -130,6 +131,9 @@ Definition parse_aop (ws : list bytes) : option aop :=
         (if is_w a w_default then Some (OSetIncFn IncDefault)
          else if is_w a w_empty then Some (OSetIncFn IncEmpty)
          else if is_w a w_null then Some (OSetIncFn IncNull)
+         (* an include function that itself reads and writes another configuration, then answers like the default
+            one: for the configuration being read it is the default function *)
+         else if is_w a w_nested then Some (OSetIncFn IncDefault)
          else None)
       else if is_w c w_dtor then Some (OSetDtor (negb (parse_num a =? 0)))
       else if is_w c w_chook then Some (OSetCHook (parse_optnum a))
